@@ -22,6 +22,52 @@ NOT_DECIDED = "numerical equality of cell contents; np.histogramdd itself (close
 TRUSTED = ["np.histogramdd counts [e_i, e_i+1) and closes the last edge", "np.ix_ builds an open mesh from index lists"]
 
 
+def check_mask_builder(ctx, rule, m):
+    tm = m.func("_bin_utils", "to_numpy_bins_with_mask")
+    ctx.saw(tm)
+    loop = [n for n in ast.walk(tm.node) if isinstance(n, ast.For)]
+    okinv = okgap = okmask = False
+    why = "loop over the bins not found"
+    if loop:
+        lp = loop[0]
+        iv = U(lp.target)
+        counter = None
+        for n in ast.walk(lp):
+            if isinstance(n, ast.AugAssign) and isinstance(n.op, ast.Add) and U(n.value) == "1":
+                counter = U(n.target)
+        fake = ast.FunctionDef(name="_body", args=ast.arguments(posonlyargs=[], args=[], kwonlyargs=[], kw_defaults=[], defaults=[]),
+                               body=lp.body, decorator_list=[])
+        okinv = counter is not None
+        okmask = True
+        for p in function_paths(fake):
+            e = sum(1 for s in p if s[0] == "stmt" for c in calls_in(s[1]) if U(c.func).endswith("edges_.append"))
+            j = sum(1 for s in p if s[0] == "stmt" and isinstance(s[1], ast.AugAssign) and U(s[1].target) == counter)
+            mk = [U(c.args[0]) for s in p if s[0] == "stmt" for c in calls_in(s[1]) if U(c.func).endswith("mask_.append")]
+            if e != j:
+                okinv = False
+            if mk != [counter]:
+                okmask = False
+            # the mask index must be recorded before the counter moves in this iteration
+            first_inc = next((i for i, s in enumerate(p) if s[0] == "stmt" and isinstance(s[1], ast.AugAssign) and U(s[1].target) == counter), None)
+            first_mask = next((i for i, s in enumerate(p) if s[0] == "stmt" and any(U(c.func).endswith("mask_.append") for c in calls_in(s[1]))), None)
+            if first_inc is not None and first_mask is not None and first_mask > first_inc:
+                okmask = False
+        conds = [n.test for n in ast.walk(lp) if isinstance(n, ast.If)]
+        okgap = any(isinstance(t, ast.Compare) and len(t.ops) == 1 and isinstance(t.ops[0], ast.NotEq)
+                    and {U(t.left), U(t.comparators[0])} == {f"bins[{iv}, 1]", f"bins[{iv} + 1, 0]"} for t in conds)
+        after = [U(s) for s in ast.walk(tm.node) if isinstance(s, ast.Expr)]
+        tail = any(t == f"mask_.append({counter})" for t in after)
+        okmask = okmask and tail
+        why = ""
+    ctx.check(okinv, rule, "to_numpy_bins_with_mask:counter-invariant", "the running index grows by one per appended edge on every path",
+              "the running mask index does not advance once per appended edge (it no longer equals the edge-interval number)", tm.where)
+    ctx.check(okmask, rule, "to_numpy_bins_with_mask:mask-index", "each bin records the running edge-interval index (and the last bin after the loop)",
+              "a bin's mask entry is not the running edge-interval index (e.g. the loop index, which ignores inserted gap edges)", tm.where)
+    ctx.check(okgap, rule, "to_numpy_bins_with_mask:gap-test", "an extra edge is inserted exactly when bins[i,1] != bins[i+1,0]",
+              "the gap test is not the exact comparison bins[i,1] != bins[i+1,0] (a tolerance would merge a small gap into the next bin)", tm.where)
+
+
+
 def run(ctx):
     m = ctx.model
     kern = m.func("_construction", "calculate_nd_frequencies")
@@ -147,48 +193,7 @@ def run(ctx):
     src_ok = any(U(n.value) == "to_numpy_bins_with_mask(self.bins)" for n in ast.walk(nbm.node) if isinstance(n, ast.Assign))
     ctx.check(src_ok, "C02.c", "numpy_bins_with_mask:source", "edges, mask come from to_numpy_bins_with_mask(self.bins)",
               "edges / mask are not derived from the binning's own bins", nbm.where)
-    tm = m.func("_bin_utils", "to_numpy_bins_with_mask")
-    ctx.saw(tm)
-    loop = [n for n in ast.walk(tm.node) if isinstance(n, ast.For)]
-    okinv = okgap = okmask = False
-    why = "loop over the bins not found"
-    if loop:
-        lp = loop[0]
-        iv = U(lp.target)
-        counter = None
-        for n in ast.walk(lp):
-            if isinstance(n, ast.AugAssign) and isinstance(n.op, ast.Add) and U(n.value) == "1":
-                counter = U(n.target)
-        fake = ast.FunctionDef(name="_body", args=ast.arguments(posonlyargs=[], args=[], kwonlyargs=[], kw_defaults=[], defaults=[]),
-                               body=lp.body, decorator_list=[])
-        okinv = counter is not None
-        okmask = True
-        for p in function_paths(fake):
-            e = sum(1 for s in p if s[0] == "stmt" for c in calls_in(s[1]) if U(c.func).endswith("edges_.append"))
-            j = sum(1 for s in p if s[0] == "stmt" and isinstance(s[1], ast.AugAssign) and U(s[1].target) == counter)
-            mk = [U(c.args[0]) for s in p if s[0] == "stmt" for c in calls_in(s[1]) if U(c.func).endswith("mask_.append")]
-            if e != j:
-                okinv = False
-            if mk != [counter]:
-                okmask = False
-            # the mask index must be recorded before the counter moves in this iteration
-            first_inc = next((i for i, s in enumerate(p) if s[0] == "stmt" and isinstance(s[1], ast.AugAssign) and U(s[1].target) == counter), None)
-            first_mask = next((i for i, s in enumerate(p) if s[0] == "stmt" and any(U(c.func).endswith("mask_.append") for c in calls_in(s[1]))), None)
-            if first_inc is not None and first_mask is not None and first_mask > first_inc:
-                okmask = False
-        conds = [n.test for n in ast.walk(lp) if isinstance(n, ast.If)]
-        okgap = any(isinstance(t, ast.Compare) and len(t.ops) == 1 and isinstance(t.ops[0], ast.NotEq)
-                    and {U(t.left), U(t.comparators[0])} == {f"bins[{iv}, 1]", f"bins[{iv} + 1, 0]"} for t in conds)
-        after = [U(s) for s in ast.walk(tm.node) if isinstance(s, ast.Expr)]
-        tail = any(t == f"mask_.append({counter})" for t in after)
-        okmask = okmask and tail
-        why = ""
-    ctx.check(okinv, "C02.c", "to_numpy_bins_with_mask:counter-invariant", "the running index grows by one per appended edge on every path",
-              "the running mask index does not advance once per appended edge (it no longer equals the edge-interval number)", tm.where)
-    ctx.check(okmask, "C02.c", "to_numpy_bins_with_mask:mask-index", "each bin records the running edge-interval index (and the last bin after the loop)",
-              "a bin's mask entry is not the running edge-interval index (e.g. the loop index, which ignores inserted gap edges)", tm.where)
-    ctx.check(okgap, "C02.c", "to_numpy_bins_with_mask:gap-test", "an extra edge is inserted exactly when bins[i,1] != bins[i+1,0]",
-              "the gap test is not the exact comparison bins[i,1] != bins[i+1,0] (a tolerance would merge a small gap into the next bin)", tm.where)
+    check_mask_builder(ctx, "C02.c", m)
 
     # ---- C02.d axis coupling ------------------------------------------------------------------------------------------
     ctx.rule("C02.d", "column i, bins[i] and per-axis kwargs[i] share one index; edges and masks from one pass over the binnings; "
